@@ -1,7 +1,7 @@
 (* ConcWf.v — structural invariants of the concurrent machine before the teardown: every initialised
    slot, every pending micro-operation and every node datum sits at a position whose parent is the
    root or an initialised node slot, and a slot holds a node exactly where the green tree has one. *)
-From CsModel Require Import Red RedProofs Conc ConcProofs ConcHandles.
+From CsModel Require Import Red RedProofs Conc ConcProofs ConcHandles ConcData.
 From Coq Require Import ZArith Lia.
 
 Section ConcWf.
@@ -59,7 +59,7 @@ Section ConcWf.
 
   Lemma HOk_parent sl i q e : SlotsOk sl -> HOk sl (i :: q, e) -> NodePos sl q.
   Proof.
-    unfold HOk. cbn [fst snd]. intros S L. destruct (S _ _ L) as (k & q' & [= -> ->] & NP & _). exact NP.
+    unfold HOk. cbn [fst snd]. intros HS L. destruct (HS _ _ L) as (k & q' & [= -> ->] & NP & _). exact NP.
   Qed.
 
   Lemma reg_HOk sl t r h : THOk sl t -> reg_of t r = Some h -> HOk sl h.
@@ -70,60 +70,172 @@ Section ConcWf.
 
   Lemma MOk_iter_to sl p : NodePos sl p -> forall n j, Forall (MOk sl) (iter_to p j n).
   Proof.
-    intros NP. induction n as [|n IH]; intros j; cbn [iter_to get_or_add app]; constructor; auto; try exact NP.
-    apply IH.
+    intros NP. induction n as [|n IH]; intros j; cbn [iter_to get_or_add app]; constructor; auto.
   Qed.
 
   Lemma MOk_flat sl p l : NodePos sl p -> Forall (MOk sl) (flat_map (fun j => get_or_add p j false) l).
   Proof. intros NP. induction l as [|a l IH]; cbn [flat_map get_or_add app]; constructor; auto. Qed.
 
+  Lemma MOk_single sl p i keep : NodePos sl p -> Forall (MOk sl) (get_or_add p i keep).
+  Proof. intros NP. cbn [get_or_add]. constructor; [exact NP|constructor]. Qed.
+
   Lemma expand_MOk sl t o : SlotsOk sl -> THOk sl t -> Forall (MOk sl) (fst (expand g t o)).
   Proof.
-    intros S T.
+    intros HS T.
     destruct o as [r|r|r i|r|r|r|r|r v|r v|r|r]; unfold expand;
-      destruct (reg_of t r) as [[p e]|] eqn:Er; cbn [fst]; try constructor;
-      try (assert (Hh := reg_HOk _ _ _ _ T Er)).
-    - destruct e; [destruct (Nat.ltb 0 (length (kids g p)))|]; cbn [fst get_or_add]; repeat constructor.
-      eapply HOk_node; eauto.
-    - destruct e; [destruct (Nat.ltb 0 (length (kids g p)))|]; cbn [fst get_or_add]; repeat constructor.
-      eapply HOk_node; eauto.
-    - destruct e; [destruct (Nat.ltb i (length (kids g p)))|]; cbn [fst]; try constructor.
+      destruct (reg_of t r) as [[p e]|] eqn:Er; cbn [fst]; try (constructor; fail);
+      assert (Hh := reg_HOk _ _ _ _ T Er).
+    - destruct e; [destruct (Nat.ltb 0 (length (kids g p)))|]; cbn [fst]; try (constructor; fail).
+      apply MOk_single. eapply HOk_node; eauto.
+    - destruct e; [destruct (Nat.ltb 0 (length (kids g p)))|]; cbn [fst]; try (constructor; fail).
+      apply MOk_single. eapply HOk_node; eauto.
+    - destruct e; [destruct (Nat.ltb i (length (kids g p)))|]; cbn [fst]; try (constructor; fail).
       + apply MOk_iter_to. eapply HOk_node; eauto.
       + apply MOk_flat. eapply HOk_node; eauto.
-    - destruct p as [|i q]; [constructor|]. destruct (Nat.ltb (S i) (length (kids g q))); cbn [fst get_or_add]; repeat constructor.
-      eapply HOk_parent; eauto.
-    - destruct p as [|i q]; [constructor|]. destruct i; cbn [fst get_or_add]; repeat constructor.
-      eapply HOk_parent; eauto.
-    - cbn [MOk]. exact Logic.I.
-    - constructor.
-    - cbn [MOk]. exact Logic.I.
-    - constructor.
-    - destruct e; cbn [fst]; repeat constructor. eapply HOk_node; eauto.
-    - destruct e; cbn [fst]; repeat constructor. eapply HOk_node; eauto.
-    - destruct e; cbn [fst]; repeat constructor. eapply HOk_node; eauto.
-    - destruct e; cbn [fst]; repeat constructor. eapply HOk_node; eauto.
+    - destruct p as [|i q]; [constructor|]. destruct (Nat.ltb (S i) (length (kids g q))); cbn [fst]; try (constructor; fail).
+      apply MOk_single. eapply HOk_parent; eauto.
+    - destruct p as [|i q]; [constructor|]. destruct i; cbn [fst]; try (constructor; fail).
+      apply MOk_single. eapply HOk_parent; eauto.
+    - constructor; [exact Logic.I|constructor].
+    - constructor; [exact Logic.I|constructor].
+    - destruct e; cbn [fst]; try (constructor; fail). constructor; [|constructor]. eapply HOk_node; eauto.
+    - destruct e; cbn [fst]; try (constructor; fail). constructor; [|constructor]. eapply HOk_node; eauto.
+    - destruct e; cbn [fst]; try (constructor; fail). constructor; [|constructor]. eapply HOk_node; eauto.
+    - destruct e; cbn [fst]; try (constructor; fail). constructor; [|constructor]. eapply HOk_node; eauto.
   Qed.
 
   Lemma refill_MOk sl : SlotsOk sl -> forall fuel t, THOk sl t -> Forall (MOk sl) (t_cont t) -> Forall (MOk sl) (t_cont (refill g fuel t)).
   Proof.
-    intros S. induction fuel as [|f IH]; intros t T C; cbn [refill]; [exact C|].
+    intros HS. induction fuel as [|f IH]; intros t T C; cbn [refill]; [exact C|].
     destruct t as [regs prog cont out]. cbn [t_cont t_prog t_regs t_out] in *.
     destruct cont as [|m c]; [|exact C].
     destruct prog as [|o r].
     - destruct (first_owned regs 0); cbn [t_cont]; repeat constructor.
-    - assert (Ex := expand_MOk sl (mkThread regs (o :: r) [] out) o S T).
-      assert (Er := expand_res g (mkThread regs (o :: r) [] out) o).
-      destruct (expand g (mkThread regs (o :: r) [] out) o) as [ms res]. cbn [fst snd] in Ex, Er.
-      apply IH; [|exact Ex].
-      (* the handles of the thread are unchanged *)
-      unfold THOk, thread_handles in *. cbn [t_regs t_cont t_out] in *.
-      rewrite !Forall_app in *. destruct T as (Tr & _ & To). split; [exact Tr|]. split.
-      + assert (Em := expand_ok g (mkThread regs (o :: r) [] out) o).
-        destruct (expand g (mkThread regs (o :: r) [] out) o) as [ms' res'] eqn:E2.
-        (* no handle among fresh operations: re-derive from the shape of ms *)
-        clear - Ex. induction Ex as [|m l Hm _ IHl]; [constructor|]. unfold cont_handles. cbn [flat_map].
-        apply Forall_app. split; [|exact IHl]. destruct m; cbn [mop_handles]; try constructor.
-        (* MCloneResult is never produced by expand: MOk says nothing, so use the handle-freedom lemma instead *)
-        all: fail.
-  Abort.
+    - assert (Ex := expand_MOk sl (mkThread regs (o :: r) [] out) o HS T).
+      assert (E := refill_handles g 1 (mkThread regs (o :: r) [] out)).
+      cbn [refill t_cont t_prog t_regs t_out] in E.
+      destruct (expand g (mkThread regs (o :: r) [] out) o) as [ms res]. cbn [fst] in Ex.
+      apply IH; [|exact Ex]. unfold THOk in *. rewrite E. exact T.
+  Qed.
+
+  Lemma SlotsOk_cons sl k q' e :
+    SlotsOk sl -> slot_lookup sl (k :: q') = None -> NodePos sl q' -> is_enode e = child_is_node g q' k ->
+    SlotsOk ((k :: q', e) :: sl).
+  Proof.
+    intros HS L NP K q e' L'. assert (M := Mono_cons sl (k :: q') e L).
+    rewrite slot_lookup_cons in L'. destruct (pos_eqb (k :: q') q) eqn:E.
+    - apply pos_eqb_eq in E. subst q. injection L' as <-. exists k, q'. split; [reflexivity|]. split; [eapply NodePos_mono; eauto|exact K].
+    - destruct (HS _ _ L') as (k0 & q0 & -> & NP0 & K0). exists k0, q0. split; [reflexivity|]. split; [eapply NodePos_mono; eauto|exact K0].
+  Qed.
+
+  Lemma DataOk_remove sl d p : DataOk sl d -> DataOk sl (data_remove d p).
+  Proof.
+    intros D q v L. destruct (list_eq_dec Nat.eq_dec q p) as [->|Hne].
+    - rewrite data_lookup_remove_same in L. discriminate.
+    - rewrite data_lookup_remove_other in L; [eapply D; eauto|exact Hne].
+  Qed.
+
+  Lemma DataOk_set sl d p v : DataOk sl d -> NodePos sl p -> DataOk sl ((p, v) :: data_remove d p).
+  Proof.
+    intros D NP q w L. destruct (list_eq_dec Nat.eq_dec q p) as [->|Hne]; [exact NP|].
+    rewrite data_lookup_set_other in L; [eapply D; eauto|exact Hne].
+  Qed.
+
+  Lemma DataOk_mono sl sl' d : Mono sl sl' -> DataOk sl d -> DataOk sl' d.
+  Proof. intros M D q v L. eapply NodePos_mono; eauto. Qed.
+
+  Lemma Forall_MOk_mono sl sl' l : Mono sl sl' -> Forall (MOk sl) l -> Forall (MOk sl') l.
+  Proof. intros M. apply Forall_impl. intros m. apply MOk_mono. exact M. Qed.
+
+  Theorem exec_Wf s tid t m rest :
+    nth_error (c_threads s) tid = Some t -> t_cont t = m :: rest ->
+    Wf s -> c_torn s = false -> Wf (fst (exec_mop g s tid t m rest)).
+  Proof.
+    intros Ht Hc W NT NT'. destruct (W NT) as (HS & HC & HD). clear W.
+    assert (M := fun p e => exec_slots_mono g s tid t m rest p e NT).
+    assert (T := nth_error_Forall _ _ _ _ HC Ht). cbn beta in T. rewrite Hc in T.
+    inversion T as [|? ? Tm Tr]; subst. clear T.
+    assert (Others : Forall (fun t0 => Forall (MOk (c_slots (fst (exec_mop g s tid t m rest)))) (t_cont t0)) (c_threads s)).
+    { eapply Forall_impl; [|exact HC]. intros x. apply Forall_MOk_mono. exact M. }
+    destruct t as [regs prog cont out]. cbn [t_cont] in Hc. subst cont.
+    revert NT' M Others.
+    destruct m as [p i first keep|p i cand keep|delta after|h|r|r report|tb p i|p o]; cbn [exec_mop].
+    - (* MRead *)
+      destruct (slot_lookup (c_slots s) (i :: p)) as [e|] eqn:L; [|destruct (child_is_node g p i) eqn:CN];
+        cbn [fst upd_thread c_slots c_torn c_threads c_data t_cont]; intros _ M Others;
+        (split; [exact HS|split; [|exact HD]]); apply Forall_set_nth; auto; cbn [t_cont].
+      + destruct keep; [constructor; [exact Logic.I|exact Tr]|exact Tr].
+      + constructor; [|exact Tr]. cbn [MOk is_some]. split; [exact Tm|symmetry; exact CN].
+      + constructor; [|exact Tr]. cbn [MOk is_some]. split; [exact Tm|symmetry; exact CN].
+    - (* MWrite *)
+      destruct Tm as (NP & CK).
+      destruct (slot_lookup (c_slots s) (i :: p)) as [e|] eqn:L;
+        cbn [fst upd_thread c_slots c_torn c_threads c_data t_cont]; intros _ M Others.
+      + split; [exact HS|split; [|exact HD]]. apply Forall_set_nth; auto. cbn [t_cont].
+        apply Forall_app. split; [destruct cand; repeat constructor|]. constructor; [exact NP|exact Tr].
+      + split; [|split].
+        * apply SlotsOk_cons; auto. rewrite <- CK. destruct cand; reflexivity.
+        * apply Forall_set_nth; auto. cbn [t_cont]. constructor; [eapply NodePos_mono; eauto|].
+          eapply Forall_MOk_mono; eauto.
+        * eapply DataOk_mono; eauto.
+    - cbn [fst upd_thread c_slots c_torn c_threads c_data t_cont]; intros _ M Others.
+      split; [exact HS|split; [|exact HD]]. apply Forall_set_nth; auto.
+    - cbn [fst upd_thread c_slots c_torn c_threads c_data t_cont]; intros _ M Others.
+      split; [exact HS|split; [|exact HD]]. apply Forall_set_nth; auto.
+    - destruct (reg_of _ r); cbn [fst upd_thread c_slots c_torn c_threads c_data t_cont]; intros _ M Others;
+        (split; [exact HS|split; [|exact HD]]); apply Forall_set_nth; auto.
+    - destruct (reg_of _ r); [destruct (Z.eqb (c_rc s) 1)|];
+        cbn [fst upd_thread c_slots c_torn c_threads c_data t_cont]; try discriminate; intros _ M Others;
+        (split; [exact HS|split; [|exact HD]]); apply Forall_set_nth; auto.
+    - rewrite NT. cbn [negb fst upd_thread c_slots c_torn c_threads c_data t_cont]. intros _ M Others.
+      split; [exact HS|split; [|exact HD]]. apply Forall_set_nth; auto.
+    - (* MData *)
+      cbn [MOk] in Tm.
+      destruct o as [r|r|r i|r|r|r|r|r v|r v|r|r];
+        try (cbn [fst upd_thread c_slots c_torn c_threads c_data t_cont]; intros _ M Others;
+             (split; [exact HS|split; [|exact HD]]); apply Forall_set_nth; auto; fail).
+      + cbn [fst upd_thread c_slots c_torn c_threads c_data t_cont]; intros _ M Others.
+        split; [exact HS|split; [apply Forall_set_nth; auto|apply DataOk_set; auto]].
+      + destruct (data_lookup (c_data s) p); cbn [fst upd_thread c_slots c_torn c_threads c_data t_cont]; intros _ M Others;
+          (split; [exact HS|split; [apply Forall_set_nth; auto|]]); [exact HD|apply DataOk_set; auto].
+      + cbn [fst upd_thread c_slots c_torn c_threads c_data t_cont]; intros _ M Others.
+        split; [exact HS|split; [apply Forall_set_nth; auto|apply DataOk_remove; auto]].
+  Qed.
+
+  Lemma normalize_Wf s : HInv s -> Wf s -> Wf (normalize g s).
+  Proof.
+    unfold HInv, Wf, normalize. cbn [c_torn c_slots c_threads c_data]. intros I W NT.
+    destruct (W NT) as (HS & HC & HD). specialize (I NT). split; [exact HS|split; [|exact HD]].
+    apply Forall_map. rewrite Forall_forall in *. intros t Hin. apply refill_MOk; auto.
+  Qed.
+
+  Lemma init_Wf progs : Wf (cinit g progs).
+  Proof.
+    unfold cinit. apply normalize_Wf.
+    - intros _. cbn [c_threads c_slots]. apply Forall_map. apply Forall_forall. intros pr _.
+      unfold THOk, thread_handles. cbn. constructor; [reflexivity|constructor].
+    - intros _. cbn [c_slots c_threads c_data]. split; [intros q e L; discriminate|]. split.
+      + apply Forall_map. apply Forall_forall. intros pr _. constructor.
+      + intros p v L. discriminate.
+  Qed.
+
+  Lemma cstep_Wf progs s want s' tid evs : Reach g progs s -> Wf s -> cstep g s want = Some (s', tid, evs) -> Wf s'.
+  Proof.
+    intros R W C. destruct (cstep_inv g _ _ _ _ _ C) as (t & m & rest & Ht & Hc & -> & _).
+    destruct (c_torn s) eqn:NT.
+    - intros NT'. unfold normalize in NT'. cbn [c_torn] in NT'. rewrite (exec_torn_stays g s tid t m rest NT) in NT'. discriminate.
+    - apply normalize_Wf; [apply exec_HInv; auto; apply (reach_HInv g progs s R)|apply exec_Wf; auto].
+  Qed.
+
+  Theorem reach_Wf progs s : Reach g progs s -> Wf s.
+  Proof. induction 1 as [|s want s' tid evs R IH C]; [apply init_Wf|eapply cstep_Wf; eauto]. Qed.
+
+  (* ---- consequences (C05): the kind of a slot's element is the kind of the green child at its
+     position; the parent of every slot is the root or an initialised node slot ---- *)
+  Theorem slot_kinds_correct progs s k q e :
+    Reach g progs s -> c_torn s = false -> slot_lookup (c_slots s) (k :: q) = Some e ->
+    is_enode e = child_is_node g q k /\ NodePos (c_slots s) q.
+  Proof.
+    intros R NT L. destruct (reach_Wf _ _ R NT) as (HS & _). destruct (HS _ _ L) as (k0 & q0 & [= -> ->] & NP & K). auto.
+  Qed.
 End ConcWf.
